@@ -97,9 +97,9 @@ func owBatch(kind string) ([]rtnetlink.Message, map[string][]Change) {
 	return nil, nil
 }
 
-func owRun(t *testing.T, seq []string) (out [][2]string) {
+func owRun(t *testing.T, seq []string, late bool) (out [][2]string) {
 	bad := func(sig, format string, a ...any) {
-		out = append(out, [2]string{sig, fmt.Sprintf("script %v: ", seq) + fmt.Sprintf(format, a...)})
+		out = append(out, [2]string{sig, fmt.Sprintf("script %v (subscribers registered after Watch started: %t): ", seq, late) + fmt.Sprintf(format, a...)})
 	}
 	synctest.Test(t, func(t *testing.T) {
 		conn := &owConn{in: make(chan []rtnetlink.Message), errC: make(chan error), dl: make(chan struct{})}
@@ -113,9 +113,10 @@ func owRun(t *testing.T, seq []string) (out [][2]string) {
 		})
 		defer verifSetWatchDial(nil)
 		w := NewWatcher()
-		any0 := w.Subscribe("eth0", LinkAny)
-		down1 := w.Subscribe("eth1", LinkDown)
-		up1 := w.Subscribe("eth1", LinkUp)
+		var any0, down1, up1 <-chan Change
+		if !late {
+			any0, down1, up1 = w.Subscribe("eth0", LinkAny), w.Subscribe("eth1", LinkDown), w.Subscribe("eth1", LinkUp)
+		}
 		ctx, cancel := context.WithCancel(context.Background())
 		defer cancel()
 		var (
@@ -125,20 +126,35 @@ func owRun(t *testing.T, seq []string) (out [][2]string) {
 		)
 		go func() { retErr = w.Watch(ctx); ret = true; close(retDone) }()
 		synctest.Wait()
+		if late {
+			// The first subscriptions arrive once watching has begun (a task that starts late).
+			any0, down1, up1 = w.Subscribe("eth0", LinkAny), w.Subscribe("eth1", LinkDown), w.Subscribe("eth1", LinkUp)
+			synctest.Wait()
+		}
 		want := map[string][]Change{}
 		var got0, got1d, got1u []Change
 		ended, wantErr := false, false
 		for i, e := range seq {
 			switch e {
 			case "recv-error":
-				conn.errC <- errors.New("verif: netlink receive failed")
+				select {
+				case conn.errC <- errors.New("verif: netlink receive failed"):
+				default:
+					bad("C19:oswatch:not-receiving", "event %d (%s): the watcher is not reading from the route netlink socket", i, e)
+					return
+				}
 				ended, wantErr = true, true
 			case "cancel":
 				cancel()
 				ended = true
 			default:
 				b, cs := owBatch(e)
-				conn.in <- b
+				select {
+				case conn.in <- b:
+				default:
+					bad("C19:oswatch:not-receiving", "event %d (%s): the watcher is not reading from the route netlink socket: changes are never seen", i, e)
+					return
+				}
 				for k, v := range cs {
 					want[k] = append(want[k], v...)
 				}
@@ -197,7 +213,7 @@ func owRun(t *testing.T, seq []string) (out [][2]string) {
 func TestVerifC19OSWatch(t *testing.T) {
 	r := ev.Begin("C19", "oswatch")
 	defer r.End(t)
-	r.Rule = "the real Watcher.Watch -> osWatch over a scripted route-netlink connection under a virtual clock: all scripts of <=4 events over {batch eth0 down, batch eth0 up + eth1 down + malformed messages, empty batch, receive error, cancellation} (stopping at the first terminal event), + a failing dial; three subscribers (eth0/any, eth1/down, eth1/up); oracle after every event (quiescence of the bubble): deliveries = the batches so far per mask, Watch still running; at the end: Watch has returned and every channel is closed; non-trivial = every script; distinct = distinct script"
+	r.Rule = "the real Watcher.Watch -> osWatch over a scripted route-netlink connection under a virtual clock: all scripts of <=4 events over {batch eth0 down, batch eth0 up + eth1 down + malformed messages, empty batch, receive error, cancellation} (stopping at the first terminal event), + a failing dial; three subscribers (eth0/any, eth1/down, eth1/up), registered before Watch starts or right after; oracle after every event (quiescence of the bubble): deliveries = the batches so far per mask, Watch still running; at the end: Watch has returned and every channel is closed; non-trivial = every script; distinct = distinct script"
 	r.Assumptions = []string{"rtnetlink.Dial inside osWatch replaced by a scripted connection (AST rewrite in the staged copy)"}
 	dials := 0
 	enum.Sequences(len(owEvents), 4, func(ix []int) bool {
@@ -211,9 +227,11 @@ func TestVerifC19OSWatch(t *testing.T) {
 		if len(seq) != len(ix) {
 			return true // events after a terminal one: same script as its prefix
 		}
-		r.Case(fmt.Sprint(seq), true)
-		for _, v := range owRun(t, seq) {
-			r.Violation(v[0], v[1], nil)
+		for _, late := range []bool{false, true} {
+			r.Case(fmt.Sprint(seq, late), true)
+			for _, v := range owRun(t, seq, late) {
+				r.Violation(v[0], v[1], nil)
+			}
 		}
 		dials++
 		return true
